@@ -123,6 +123,44 @@ func hopsParams(rel string) string {
 	return fmt.Sprintf("(%s, %s)", start, c)
 }
 
+// pushSignal looks at xpush SendMsg: after the select that puts the message on sendQ, is the forwarding goroutine's
+// condition variable signalled by a statement of the function body itself (not nested in an if / for / switch), and
+// with which call.  Model/Wakeup.v's [cond] = false is exactly that shape.
+func pushSignal() string {
+	_, f := parseFile("protocol/xpush/xpush.go")
+	fd := findFunc(f, "socket", "SendMsg")
+	if fd == nil {
+		return `(false, "SendMsg not found")`
+	}
+	seenSelect := false
+	for _, st := range fd.Body.List {
+		if sel, ok := st.(*ast.SelectStmt); ok {
+			ast.Inspect(sel, func(n ast.Node) bool {
+				if ss, ok := n.(*ast.SendStmt); ok && strings.HasSuffix(exprString(ss.Chan), "sendQ") {
+					seenSelect = true
+				}
+				return true
+			})
+			continue
+		}
+		if !seenSelect {
+			continue
+		}
+		if es, ok := st.(*ast.ExprStmt); ok {
+			if call, ok := es.X.(*ast.CallExpr); ok {
+				if se, ok := call.Fun.(*ast.SelectorExpr); ok && strings.HasSuffix(exprString(se.X), "cv") &&
+					(se.Sel.Name == "Signal" || se.Sel.Name == "Broadcast") {
+					return fmt.Sprintf("(true, %q)", se.Sel.Name)
+				}
+			}
+		}
+	}
+	if !seenSelect {
+		return `(false, "no send to sendQ in a select")`
+	}
+	return `(false, "no unconditional Signal after the enqueue")`
+}
+
 func exprString(e ast.Expr) string {
 	switch x := e.(type) {
 	case *ast.Ident:
@@ -229,6 +267,8 @@ func main() {
 	w.P("Definition gen_pool_maxbody : list N := %s.", sizes)
 	w.P("Definition gen_pool_newmsg : list N := %s.", news)
 	w.P("Definition gen_pool_cmp : string := %s.", strconv.Quote(op))
+
+	w.P("Definition gen_push_signal : bool * string := %s.", pushSignal())
 
 	// protocol registry and defaults, obtained by running the constructors
 	var items []string
